@@ -3,6 +3,7 @@ import Chain33Model.Proofs.C16Enc
 import Chain33Model.Proofs.C17Chain
 import Chain33Model.Proofs.C17Create
 import Chain33Model.Proofs.C17Fee
+import Chain33Model.Proofs.C17Resign
 import Chain33Model.Props.C16
 /-!
 C17 — Transaction groups are tamper-evident.  Property theorems only
@@ -89,6 +90,44 @@ theorem tamper_changes_signbytes (H : Bytes → Bytes) (c c' : CheckCfg) (minfee
     rw [hdr x hx, hdr' y hy] at h2
     exact hh h2
 
+/-- non-vacuity: a concrete two-member group (abstract hash = constant-length toy hash) that is
+created by `createGroupWith` and passes `groupCheckWith`. -/
+def toyH (b : Bytes) : Bytes := [UInt8.ofNat b.length, UInt8.ofNat (b.foldl (fun a x => a + x.toNat) 0)]
+
+def exIn : List Transaction :=
+  [{ execer := [1], payload := [1, 2], signature := none, fee := 5, expire := 0, nonce := 1, to := [],
+     groupCount := 0, header := [], next := [], chainID := 33 },
+   { execer := [1], payload := [3], signature := none, fee := 7, expire := 0, nonce := 2, to := [],
+     groupCount := 0, header := [], next := [], chainID := 33 }]
+
+def exCfg : CheckCfg := { chainIDStrict := true, cfgChainID := 33, checkFork := true, paraFork := true }
+
+/-- ◐ **no original signature is accepted on any member of a tampered group** — the conclusion
+the property text asks for (`CheckSign` fails), under the hypothesis that the scheme is
+message-binding (`C16.MsgBinding`; `tamper_changes_signbytes` alone only says the signed bytes
+differ, which a verifier accepting everything would ignore).  `withSigOf S ty sk x y` is the
+tampered member `y` carrying the signature `sk` made for the original member `x`. -/
+theorem tampered_group_rejected_partial (S : Scheme) (hb : MsgBinding S)
+    (H : Bytes → Bytes) (c c' : CheckCfg) (minfee maxFee minfee' maxFee' : Int)
+    (t t' : Transaction) (rest rest' : List Transaction)
+    (hw : ∀ x ∈ t :: rest, x.WF) (hw' : ∀ x ∈ t' :: rest', x.WF)
+    (hc : groupCheckWith H c minfee maxFee (t :: rest) = .ok ())
+    (hc' : groupCheckWith H c' minfee' maxFee' (t' :: rest') = .ok ())
+    (hd : (t :: rest).map stripSig ≠ (t' :: rest').map stripSig)
+    (r : Registry) (d : Driver) (validate : String → Bytes → Bytes → Bytes → VOut) (ty h : Int)
+    (hreg : driverByType r (extractCryptoID ty) = some d)
+    (hval : ∀ m p s, validate d.name m p s = if S.verify m p s then VOut.ok else VOut.fail) :
+    Collision H ∨ ∀ x ∈ t :: rest, ∀ y ∈ t' :: rest', ∀ sk : S.SK,
+      checkSign r validate h (withSigOf S ty sk x y) = false := by
+  cases tamper_changes_signbytes H c c' minfee maxFee minfee' maxFee' t t' rest rest' hw hw' hc hc' hd with
+  | inl col => exact Or.inl col
+  | inr hh =>
+    refine Or.inr ?_
+    intro x hx y hy sk
+    apply altered_field_rejected_partial S hb r d validate ty h sk x y (hw x hx) (hw' y hy) hreg hval
+    intro e
+    exact hh.2 x hx y hy (by unfold signBytes; rw [e])
+
 /-- **fee rules (acceptance side)**: an accepted group has zero fees on every non-head member and
 a head fee covering the sum of the members' required fees. -/
 theorem fee_rules (H : Bytes → Bytes) (c : CheckCfg) (minfee maxFee : Int)
@@ -167,19 +206,39 @@ hash outputs have one length (32 bytes for SHA-256); the last input has no stale
 members; non-negative rate and input fees, inputs unsigned; the resulting fees fit int64; every
 member's signature field adds at most the 300 bytes `GetRealFee` reserves for an unsigned
 transaction (true for the built-in single-key schemes; a larger signature can push a member over a
-1000-byte fee step); chain id / para rules / `maxFee` hold for the created members (they do not
-depend on signatures). -/
+1000-byte fee step); chain id / para rules hold for the *inputs*; the head fee computed by
+`CreateTxGroup` is within `maxFee`. -/
 theorem created_group_checks (H : Bytes → Bytes) (hlenH : ∀ x y, (H x).length = (H y).length)
     (c : CheckCfg) (rate maxFee : Int) (txs g : List Transaction) (sigs : Transaction → Option Signature)
     (hc : createGroupWith H txs rate = .ok g) (hl : lastNextNil txs)
     (hn : Int.ofNat txs.length ≤ MaxTxGroupSize) (hr : 0 ≤ rate)
     (hu : ∀ x ∈ txs, x.signature = none) (hf : ∀ x ∈ txs, 0 ≤ x.fee)
-    (hfee : ∀ x ∈ g, x.fee < 2 ^ 63)
-    (hs : ∀ x ∈ g, ∀ s, sigs x = some s → (encodeSig s).length + 3 ≤ 300)
-    (hm : firstErr (memberCheck c) g = .ok ()) (hp : paraCheck c.paraFork g = .ok ())
-    (hmax : ∀ x ∈ g, ¬ (x.fee > maxFee ∧ maxFee > 0 ∧ c.checkFork)) :
-    groupCheckWith H c rate maxFee (g.map (withSig sigs)) = .ok () :=
-  createGroup_checks H hlenH c rate maxFee txs g sigs hc hl hn hr hu hf hfee hs hm hp hmax
+    -- input side: chain id and para rules are those of the inputs (CreateTxGroup leaves them alone)
+    (hm : firstErr (memberCheck c) txs = .ok ()) (hp : paraCheck c.paraFork txs = .ok ())
+    -- the one output-side condition left: the head fee CreateTxGroup computed fits int64 and `maxFee`
+    (hhead : ∀ h0, g.head? = some h0 → h0.fee < 2 ^ 63 ∧ ¬ (h0.fee > maxFee ∧ maxFee > 0 ∧ c.checkFork))
+    -- contract gap of CreateTxGroup: it reserves 300 bytes per missing signature
+    (hs : ∀ x ∈ g, ∀ s, sigs x = some s → (encodeSig s).length + 3 ≤ 300) :
+    groupCheckWith H c rate maxFee (g.map (withSig sigs)) = .ok () := by
+  have ⟨hf1, hf2⟩ := createGroup_fields H txs g rate hc
+  have hm' : firstErr (memberCheck c) g = .ok () := by
+    rw [firstErr_memberCheck_congr c g txs hf1]; exact hm
+  have hp' : paraCheck c.paraFork g = .ok () := by
+    rw [paraCheck_congr c.paraFork g txs hf2]; exact hp
+  have ⟨_, _, hz⟩ := createGroup_chained H txs g rate hc hl hn
+  have hall : ∀ x ∈ g, x.fee < 2 ^ 63 ∧ ¬ (x.fee > maxFee ∧ maxFee > 0 ∧ c.checkFork) := by
+    intro x hx
+    cases g with
+    | nil => cases hx
+    | cons h0 tl =>
+      cases hx with
+      | head => exact hhead _ rfl
+      | tail _ hx' =>
+        have := hz x hx'
+        rw [this]
+        exact ⟨by decide, by intro ⟨h1, h2, _⟩; omega⟩
+  exact createGroup_checks H hlenH c rate maxFee txs g sigs hc hl hn hr hu hf (fun x hx => (hall x hx).1) hs hm' hp'
+    (fun x hx => (hall x hx).2)
 
 /-- the structural part needs no side condition on sizes or fees: the created group — with arbitrary
 signatures attached — is correctly chained (header = hash of the head, common header, counts,
@@ -218,24 +277,90 @@ theorem signed_group_checkSign (S : Scheme) (r : Registry) (d : Driver)
   obtain ⟨t, _, rfl⟩ := hx
   exact sign_verify S r d validate ty h (sk t) t hreg hen hval
 
+/-! ### who signed a member is NOT bound
+
+Everything above is "up to signatures".  The header/next chain hashes `Hash()`, which strips the
+signature, and each member signature covers only that member's bytes; `Check` sees signatures only
+through their encoded size.  So a member re-signed — content unchanged — by any other key passes
+`Check` and `CheckSign` again: "substituting a member / altering any member field" is not evident
+for `Signature.{Pubkey,Signature}`.  Replayed on the real code (known finding
+`C17|Check+CheckSign|resign-member-other-key-accepted`). -/
+
+/-- full reading of the property text: two groups accepted by `Check` and `CheckSign` with the same
+head header are equal — signatures included — or the hash collides. -/
+def SignersBound : Prop :=
+  ∀ (H : Bytes → Bytes) (c : CheckCfg) (minfee maxFee : Int) (r : Registry)
+    (validate : String → Bytes → Bytes → Bytes → VOut) (h : Int) (g g' : List Transaction),
+    groupCheckWith H c minfee maxFee g = .ok () → groupCheckWith H c minfee maxFee g' = .ok () →
+    groupCheckSign r validate h g = true → groupCheckSign r validate h g' = true →
+    g.map (·.header) = g'.map (·.header) → g.map stripSig = g'.map stripSig → g = g'
+
+/-- ✗ **re-signed members are accepted** (for every hash function, scheme and group): if the group
+signed with keys `sk` passes `Check`, then the same group signed with any other keys `sk'` whose
+signatures have the same encoded size passes `Check` with the same verdict, passes `CheckSign`, and
+differs from the first only in the signatures. -/
+theorem resigned_member_accepted (H : Bytes → Bytes) (c : CheckCfg) (minfee maxFee : Int)
+    (S : Scheme) (r : Registry) (d : Driver) (validate : String → Bytes → Bytes → Bytes → VOut)
+    (ty h : Int) (sk sk' : Transaction → S.SK) (g : List Transaction)
+    (hreg : driverByType r (extractCryptoID ty) = some d) (hen : enabledAt d h = true)
+    (hval : ∀ m p s, validate d.name m p s = if S.verify m p s then VOut.ok else VOut.fail)
+    (hsz : SameSigSize (fun t => (signTx S ty (sk t) t).signature) (fun t => (signTx S ty (sk' t) t).signature)) :
+    groupCheckWith H c minfee maxFee (g.map (fun t => signTx S ty (sk' t) t)) =
+      groupCheckWith H c minfee maxFee (g.map (fun t => signTx S ty (sk t) t)) ∧
+    groupCheckSign r validate h (g.map (fun t => signTx S ty (sk' t) t)) = true ∧
+    (g.map (fun t => signTx S ty (sk' t) t)).map stripSig = (g.map (fun t => signTx S ty (sk t) t)).map stripSig := by
+  refine ⟨?_, signed_group_checkSign S r d validate ty h sk' g hreg hen hval, ?_⟩
+  · have e : ∀ k : Transaction → S.SK, (fun t => signTx S ty (k t) t) =
+        withSig (fun t => (signTx S ty (k t) t).signature) := by
+      intro k; funext t; cases t; rfl
+    rw [e sk, e sk']
+    exact (groupCheckWith_sig_congr H c minfee maxFee _ _ hsz g).symm
+  · simp only [List.map_map]
+    apply List.map_congr_left
+    intro t _
+    cases t; rfl
+
+/-- concrete witness against `SignersBound`: a two-member group created by `CreateTxGroup`, signed
+once with keys `[1]`, `[2]` and once with keys `[3]`, `[4]` (scheme `exScheme`: signature = key ++
+message); both pass `Check` and `CheckSign`, headers and contents agree, the groups differ. -/
+def exSigned (k0 k1 : UInt8) : List Transaction :=
+  match createGroupWith toyH exIn 100 with
+  | .ok [a, b] => [signTx exScheme 1 [k0] a, signTx exScheme 1 [k1] b]
+  | _ => []
+
+def exValidate : String → Bytes → Bytes → Bytes → VOut :=
+  fun _ m p s => if exScheme.verify m p s then .ok else .fail
+
+def exResignedBothPass : Bool :=
+  (match groupCheckWith toyH exCfg 100 0 (exSigned 1 2), groupCheckWith toyH exCfg 100 0 (exSigned 3 4) with
+    | .ok _, .ok _ => true
+    | _, _ => false) &&
+  groupCheckSign exRegistry exValidate 100 (exSigned 1 2) && groupCheckSign exRegistry exValidate 100 (exSigned 3 4) &&
+  decide ((exSigned 1 2).map (·.header) = (exSigned 3 4).map (·.header)) &&
+  decide ((exSigned 1 2).map stripSig = (exSigned 3 4).map stripSig) &&
+  decide (exSigned 1 2 ≠ exSigned 3 4) && decide ((exSigned 1 2).length = 2)
+
+theorem exResignedBothPass_true : exResignedBothPass = true := by decide +kernel
+
+/-- ✗ refuted on the witness. -/
+theorem signers_bound_full_false : ¬ SignersBound := by
+  intro hfull
+  have hb := exResignedBothPass_true
+  simp only [exResignedBothPass, Bool.and_eq_true, decide_eq_true_eq] at hb
+  obtain ⟨⟨⟨⟨⟨⟨h1, h2⟩, h3⟩, h4⟩, h5⟩, h6⟩, _⟩ := hb
+  have c1 : groupCheckWith toyH exCfg 100 0 (exSigned 1 2) = .ok () := by
+    revert h1; cases groupCheckWith toyH exCfg 100 0 (exSigned 1 2) <;> simp
+  have c2 : groupCheckWith toyH exCfg 100 0 (exSigned 3 4) = .ok () := by
+    revert h1; cases groupCheckWith toyH exCfg 100 0 (exSigned 1 2) <;>
+      cases groupCheckWith toyH exCfg 100 0 (exSigned 3 4) <;> simp
+  exact h6 (hfull toyH exCfg 100 0 exRegistry exValidate 100 _ _ c1 c2 h2 h3 h4 h5)
+
 /-- `Transactions.CheckSign`: a group verifies exactly when every member verifies. -/
 theorem group_checkSign_all (r : Registry) (validate : String → Bytes → Bytes → Bytes → VOut)
     (h : Int) (g : List Transaction) :
     groupCheckSign r validate h g = true ↔ ∀ x ∈ g, checkSign r validate h x = true := by
   unfold groupCheckSign
   simp [List.all_eq_true]
-
-/-- non-vacuity: a concrete two-member group (abstract hash = constant-length toy hash) that is
-created by `createGroupWith` and passes `groupCheckWith`. -/
-def toyH (b : Bytes) : Bytes := [UInt8.ofNat b.length, UInt8.ofNat (b.foldl (fun a x => a + x.toNat) 0)]
-
-def exIn : List Transaction :=
-  [{ execer := [1], payload := [1, 2], signature := none, fee := 5, expire := 0, nonce := 1, to := [],
-     groupCount := 0, header := [], next := [], chainID := 33 },
-   { execer := [1], payload := [3], signature := none, fee := 7, expire := 0, nonce := 2, to := [],
-     groupCount := 0, header := [], next := [], chainID := 33 }]
-
-def exCfg : CheckCfg := { chainIDStrict := true, cfgChainID := 33, checkFork := true, paraFork := true }
 
 /-- the created group of `exIn` passes the group check, and the input meets the side conditions. -/
 def exCreatedPasses : Bool :=
